@@ -73,6 +73,7 @@ func main() {
 	os.Remove(args["out"])
 	os.Remove(args["out"] + ".cur")
 	start, crashes := 0, 0
+	gcRetried := map[int]int{}
 	for {
 		cmd := exec.Command(os.Args[0], append(append([]string{os.Args[1]}, os.Args[2:]...), "worker=1", fmt.Sprintf("start=%d", start))...)
 		outb, killed, err := runWatched(cmd, args["out"]+".cur")
@@ -97,6 +98,18 @@ func main() {
 		if m.I < start {
 			// the worker died before it marked its first case after the restart: blame that case
 			m.I, m.Case = start, json.RawMessage(`{"note":"died before marking the case"}`)
+		}
+		// The garbage collector's consistency checks ("found pointer to free object", "bad pointer in Go heap") fire at a
+		// collection, not at the operation that planted the pointer: the case in progress is not to blame unless it
+		// reproduces.  Such a death is retried once from the same case in a fresh worker; only a second death at the same
+		// case is logged as a Crash (verdicts come from reproducible behaviour only).
+		if txt := string(outb); (strings.Contains(txt, "found pointer to free object") || strings.Contains(txt, "found bad pointer in Go heap")) && gcRetried[m.I] < 1 {
+			gcRetried[m.I]++
+			fmt.Fprintf(os.Stderr, "NOTE: worker died of a garbage-collector consistency error at case %d; retrying that case in a fresh worker\n", m.I)
+			dropPartialLine(args["out"])
+			os.Remove(args["out"] + ".cur")
+			start = m.I
+			continue
 		}
 		crashes++
 		if crashes > 200 {
